@@ -285,6 +285,12 @@ class Coordinator(object):
             if self._heartbeat_looper.running:
                 self._heartbeat_looper.stop()
 
+        if self._rejoin_d:
+            # Abandon a join in progress now, so that a JoinGroup still waiting
+            # for the coordinator lookup is never sent.
+            self._rejoin_d, d = None, self._rejoin_d
+            d.cancel()
+
     @inlineCallbacks
     def stop(self, errback_result=None):
         self._begin_stop(errback_result)
@@ -298,10 +304,6 @@ class Coordinator(object):
                 yield self.send_leave_group_request()
             except Exception:
                 log.exception("error sending leave group request")
-
-        if self._rejoin_d:
-            self._rejoin_d, d = None, self._rejoin_d
-            d.cancel()
 
         self._state = "[stopped]"
         self.protocol = None
